@@ -154,6 +154,8 @@ def _same_obj(x, y):
 CONTEXT_ARRAY_FORMULAS = {
     "b + lag(a)": 1, "a + lag(a, 2):A": 2, "lag(b) + lag(a)": 1, "center(a) + b": 0, "scale(a):A + poly(b, 2)": 0, "np.log(a + 50) + {a * b} + I(b)": 0,
     "bs(a, df=4) + cr(b, df=3)": 0, "a + b": 0,
+    # a Python LIST held in the context and handed to a transform (explicit knots): it is the caller's
+    "bs(a, knots=K) + b": 0, "cr(b, knots=K2):A + bs(a, knots=K, degree=1)": 0,
 }
 
 
@@ -166,6 +168,10 @@ def context_array_problems(formula: str, history):
     f1, f2 = mc.cat_frame(), mc.cat_frame(a_rows=list(reversed(mc.A_ROWS)))
     arrays = {1: {"a": numpy.array([0.5, 2.0, 3.25, 4.0, 6.5, 7.0, 9.75]), "b": numpy.array([4.0, 1.5, 6.0, 2.5, 8.0, 3.0, 5.5])},
               2: {"a": numpy.array([1.0, 8.5, 2.0, 7.25, 3.0, 6.0, 4.5]), "b": numpy.array([7.0, 2.0, 5.5, 1.0, 6.5, 3.0, 4.25])}}
+    if "K" in formula:
+        for k in arrays:
+            arrays[k]["K"] = [3.0, 6.0]
+            arrays[k]["K2"] = [3.5, 5.0]
     data = {1: (f1, arrays[1]), 2: (f2, arrays[2])}
 
     def same(u, v):
